@@ -411,4 +411,21 @@ void h_pool_destroy(void)
 	V_WITNESS();
 }
 
-V_MAIN(V_E(h_dispatch_saturated), V_E(h_result_worker), V_E(h_handler_lifecycle), V_E(h_pool_destroy), V_E(h_dispatch), V_E(h_resultq_next), V_E(h_resultq_end), V_E(h_worker_step), V_E(h_worker_shutdown))
+/* step 7: the public wrappers: a pool of 0 threads is "no pool", any other size is the maximum */
+void h_public_wrappers(void)
+{
+	verif_stop_is_violation = 1;
+	size_t n = (size_t)vn_range(0, 1000);
+	struct mtbl_threadpool *tp = mtbl_threadpool_init(n);
+	V_ASSERT(tp != NULL, "C13: mtbl_threadpool_init returns a handle");
+	V_ASSERT((tp->pool != NULL) == (n > 0), "C13: thread count 0 means no pool, anything else a pool");
+	if (tp->pool != NULL)
+		V_ASSERT(tp->pool->max == n && tp->pool->count == 0 && tp->pool->head == NULL && v_created == 0, "C13: a fresh pool has the configured maximum and no threads yet");
+	mtbl_threadpool_destroy(&tp);
+	V_ASSERT(tp == NULL && !v_blocked && v_joined == 0, "C13: destroying an unused pool returns at once");
+	mtbl_threadpool_destroy(&tp);	/* NULL handle: no-op */
+	V_ASSERT(v_locks_held == 0 && !v_lock_error, "C13: mutex discipline");
+	V_WITNESS();
+}
+
+V_MAIN(V_E(h_public_wrappers), V_E(h_dispatch_saturated), V_E(h_result_worker), V_E(h_handler_lifecycle), V_E(h_pool_destroy), V_E(h_dispatch), V_E(h_resultq_next), V_E(h_resultq_end), V_E(h_worker_step), V_E(h_worker_shutdown))
